@@ -7,7 +7,10 @@
    source / RefreshPublish ; a cache miss is  MissBegin / one MissFetch per source /
    MissPublish ; a call that finds the writer lock taken is parked in `waiter` and proceeds
    when the lock is free (WaiterProceed).  The environment may change between any two steps,
-   in particular between two source fetches of one refresh.
+   in particular between two source fetches of one refresh.  A lookup that finds the refresh
+   interval elapsed starts the automatic refresh: a Refresh in a goroutine of its own, which takes
+   the writer lock if it is free and otherwise waits for the holder like any second Refresh; the
+   lookup itself returns at once (GetHit(p, 1)).
 
    FIXED = TRUE  models the repaired Refresh (all sources are fetched first; sequence number
                  and write map are touched only when every source has answered);
@@ -29,7 +32,8 @@ CONSTANTS SrcSeq,      \* sequence of sources, in the order the cache queries th
           FIXED,
           EXPORT,      \* write behaviours at terminal states
           InitFree,    \* arbitrary initial source contents
-          WithWaiter   \* allow one call to be parked on the writer lock
+          WithWaiter,  \* allow one call to be parked on the writer lock
+          MaxAuto      \* how many times the refresh interval may elapse (0: no automatic refresh)
 
 Src == {SrcSeq[i] : i \in 1..Len(SrcSeq)}
 Prov == {ProvSeq[i] : i \in 1..Len(ProvSeq)}
@@ -51,15 +55,16 @@ VARIABLES content,   \* [Src -> [Prov -> 0..MaxVer]]   0 = source does not repor
           hi,        \* ghost: newest version any fetch (even of a cancelled refresh) returned for p since it last left the cache
           last,      \* kind of the last completed step
           lastArg,   \* provider and return value of the last completed miss
-          calls, envs, h
+          calls, envs, h,
+          autos      \* how often the refresh interval has elapsed
 
-vars == <<content, up, now, ticks, seq, write, rM, rU, w, waiter, seen, rep, goneAt, prevVis, hi, last, lastArg, calls, envs, h>>
-view == <<content, up, now, ticks, seq, write, rM, rU, w, waiter, seen, rep, goneAt, prevVis, hi, last, lastArg, calls, envs>>
+vars == <<content, up, now, ticks, seq, write, rM, rU, w, waiter, seen, rep, goneAt, prevVis, hi, last, lastArg, calls, envs, h, autos>>
+view == <<content, up, now, ticks, seq, write, rM, rU, w, waiter, seen, rep, goneAt, prevVis, hi, last, lastArg, calls, envs, autos>>
 
 NoEnt == [ver |-> NONE, sq |-> 0, us |-> 0, ex |-> 0]
 AnyProv == ProvSeq[1]
 Zero == [p \in Prov |-> 0]
-Idle == [pc |-> "idle", i |-> 0, acc |-> <<>>, p |-> AnyProv, best |-> 0, sq |-> 0, fm |-> Zero]
+Idle == [pc |-> "idle", i |-> 0, acc |-> <<>>, p |-> AnyProv, best |-> 0, sq |-> 0, fm |-> Zero, auto |-> FALSE]
 NoWaiter == [kind |-> "none", p |-> AnyProv]
 
 Max(a, b) == IF a > b THEN a ELSE b
@@ -77,9 +82,10 @@ TypeOK ==
 (* One history record per step: the action, its arguments, what the call returned (ret) and
    the visible snapshot after the step.  Uniform field types so that the list serialises.   *)
 HiSeqOf(f) == [i \in 1..Len(ProvSeq) |-> f[ProvSeq[i]]]
-Step(a, s, p, v, ret, vis, hh, str) == [a |-> a, s |-> s, p |-> p, v |-> v, ret |-> ret, vis |-> vis, hi |-> hh, str |-> str]
+Step(a, s, p, v, ret, vis, hh, str) == [a |-> a, s |-> s, p |-> p, v |-> v, ret |-> ret, vis |-> vis, hi |-> hh, str |-> str, au |-> 0]
 Rec(a, s, p, v, ret, vis) == h' = Append(h, Step(a, s, p, v, ret, vis, <<>>, 0))
 RecX(a, s, p, v, ret, vis, hh, str) == h' = Append(h, Step(a, s, p, v, ret, vis, hh, str))
+RecAu(a, s, p, v, ret, vis, hh, str, au) == h' = Append(h, [Step(a, s, p, v, ret, vis, hh, str) EXCEPT !.au = au])
 (* The initial source contents are arbitrary (InitFree) so that bounded histories spend their
    budget on cache operations; h starts with the EnvSet steps that establish them.          *)
 InitSteps(c) ==
@@ -99,12 +105,13 @@ Init ==
   /\ rM = [p \in Prov |-> NONE] /\ rU = [p \in Prov |-> NONE]
   /\ w = Idle /\ waiter = NoWaiter
   /\ seen = Zero /\ rep = {} /\ goneAt = Zero /\ prevVis = [p \in Prov |-> NONE] /\ hi = Zero
-  /\ last = "init" /\ lastArg = [p |-> AnyProv, ret |-> 0] /\ calls = 0 /\ envs = 0 /\ h = InitSteps(content)
+  /\ last = "init" /\ lastArg = [p |-> AnyProv, ret |-> 0] /\ calls = 0 /\ envs = 0 /\ h = InitSteps(content) /\ autos = 0
 
-Budget == calls < MaxCalls /\ calls' = calls + 1 /\ UNCHANGED envs          \* an API call starts
-Free == UNCHANGED <<calls, envs>>                                            \* internal step of a call
+BudgetA == calls < MaxCalls /\ calls' = calls + 1 /\ UNCHANGED envs         \* an API call starts
+Budget == BudgetA /\ UNCHANGED autos
+Free == UNCHANGED <<calls, envs, autos>>                                     \* internal step of a call
 Useful == calls < MaxCalls \/ w.pc # "idle"                                   \* somebody can still observe the environment
-EnvBudget == Useful /\ envs < MaxEnv /\ envs' = envs + 1 /\ UNCHANGED calls
+EnvBudget == Useful /\ envs < MaxEnv /\ envs' = envs + 1 /\ UNCHANGED <<calls, autos>>
 
 ---------------------------------------------------------------------------
 (* Environment *)
@@ -160,7 +167,7 @@ RefreshFetch ==
 
 (* The caller's context is cancelled while source w.i is being fetched: Refresh returns the error. *)
 RefreshCancel ==
-  /\ Free /\ w.pc = "refresh" /\ w.i <= N
+  /\ Free /\ w.pc = "refresh" /\ w.i <= N /\ ~w.auto        \* the automatic refresh runs under the background context
   /\ w' = Idle
   /\ Rec("RefreshCancel", SrcSeq[w.i], AnyProv, w.i, 0, VisSeq) /\ last' = "refreshCancelled"
   /\ UNCHANGED <<content, up, now, ticks, seq, write, rM, rU, waiter, seen, rep, goneAt, prevVis, lastArg, hi>>
@@ -204,10 +211,19 @@ RefreshPublish ==
 (* Readers and the miss path *)
 
 (* Get(p) for a provider in the snapshot: never touches the lock (C07), returns the snapshot's value. *)
-GetHit(p) ==
-  /\ Budget /\ Visible(p) # NONE
-  /\ RecX("GetHit", SrcSeq[1], p, 0, Visible(p), VisSeq, <<>>, IF write[p].ver # NONE THEN 1 ELSE 0) /\ last' = "getHit"
-  /\ UNCHANGED <<content, up, now, ticks, seq, write, rM, rU, w, waiter, seen, rep, goneAt, prevVis, lastArg, hi>>
+GetHit(p, t) ==
+  /\ BudgetA /\ Visible(p) # NONE
+  /\ (t = 0 \/ (autos < MaxAuto /\ waiter.kind = "none" /\ (w.pc = "idle" \/ WithWaiter))) /\ autos' = autos + t
+  /\ IF t = 0 THEN UNCHANGED <<w, waiter, seq>>
+     ELSE IF w.pc = "idle"              \* the refresh interval has elapsed: the automatic refresh starts in its own goroutine ...
+     THEN /\ UNCHANGED waiter
+          /\ IF FIXED THEN /\ w' = [Idle EXCEPT !.pc = "refresh", !.i = 1, !.auto = TRUE] /\ UNCHANGED seq
+                      ELSE /\ w' = [Idle EXCEPT !.pc = "refresh", !.i = 1, !.sq = seq + 1, !.auto = TRUE] /\ seq' = seq + 1
+     ELSE /\ waiter' = [kind |-> "piggy", p |-> AnyProv] /\ UNCHANGED <<w, seq>>     \* ... or waits for the writer at work
+  /\ RecAu("GetHit", SrcSeq[1], p, 0, Visible(p), VisSeq, <<>>, IF write[p].ver # NONE THEN 1 ELSE 0,
+           IF t = 0 THEN 0 ELSE IF w.pc = "idle" THEN 1 ELSE 2)
+  /\ last' = "getHit"
+  /\ UNCHANGED <<content, up, now, ticks, write, rM, rU, seen, rep, goneAt, prevVis, lastArg, hi>>
 
 (* fetchMissing after the lock is taken.  If the provider is in the write map the snapshot is
    consulted again ("stored by previous request"); an entry that is in the write map but in
@@ -292,7 +308,7 @@ Next ==
   \/ \E s \in Src : EnvFlip(s)
   \/ Tick
   \/ RefreshBegin \/ RefreshFetch \/ RefreshCancel \/ RefreshPublish
-  \/ \E p \in Prov : GetHit(p) \/ MissBegin(p) \/ MissPark(p)
+  \/ \E p \in Prov : GetHit(p, 0) \/ GetHit(p, 1) \/ MissBegin(p) \/ MissPark(p)
   \/ MissFetch \/ MissCancel \/ MissPublish
   \/ PiggyStart \/ WaiterProceed
 
@@ -331,7 +347,7 @@ NoRegress ==
 
 (* C07, first sentence, as a state predicate: whatever the writer is doing, every read of a cached
    provider is enabled (reader actions never mention w or waiter).                                *)
-ReadersNeverBlocked == \A p \in Prov : (Visible(p) # NONE /\ calls < MaxCalls) => ENABLED GetHit(p)
+ReadersNeverBlocked == \A p \in Prov : (Visible(p) # NONE /\ calls < MaxCalls) => ENABLED GetHit(p, 0)
 
 (* the tolerance interval exported to the harness is well-formed *)
 HiBound == \A p \in Prov : Visible(p) <= hi[p] \/ ~FIXED
